@@ -40,6 +40,9 @@ type HarnessSpec struct {
 	Outside   string         `json:"outside,omitempty"`
 	MaxSteps  int64          `json:"max_steps,omitempty"`
 	AssertMs  int            `json:"assert_ms,omitempty"`
+	// QuickOnly: a harness shared from another property (where it is explored at full
+	// depth) runs with its quick-tier bounds in both tiers of this property.
+	QuickOnly bool `json:"quick_bounds_only,omitempty"`
 }
 
 type PropertySpec struct {
@@ -170,13 +173,17 @@ func cmdCheck(args []string) int {
 			problems = append(problems, err.Error())
 			continue
 		}
-		opts := defaultOpts(*tier)
+		htier := *tier
+		if h.QuickOnly {
+			htier = "quick"
+		}
+		opts := defaultOpts(htier)
 		opts.KnownOpen = knownOpen
 		opts.Seed = int64(seed)
 		if h.Explore != nil {
 			opts.Explore = *h.Explore
 		}
-		if *tier == "thorough" && h.ExploreT != nil {
+		if htier == "thorough" && h.ExploreT != nil {
 			opts.Explore = *h.ExploreT
 		}
 		if h.MaxFaults != nil {
@@ -191,7 +198,7 @@ func cmdCheck(args []string) int {
 		for k, v := range h.Params {
 			opts.Params[k] = v
 		}
-		if *tier == "thorough" {
+		if htier == "thorough" {
 			for k, v := range h.ParamsT {
 				opts.Params[k] = v
 			}
@@ -209,7 +216,7 @@ func cmdCheck(args []string) int {
 			maxPaths = 400000
 		}
 		budget := 20 * time.Minute
-		if *tier == "thorough" {
+		if htier == "thorough" {
 			budget = 3 * time.Hour
 		}
 		sum := interp.Explore(l.world, fn, opts, *workers, maxPaths, budget)
@@ -223,7 +230,7 @@ func cmdCheck(args []string) int {
 			funcs[f] = true
 		}
 		b := h.Bounds
-		if *tier == "thorough" && h.BoundsT != "" {
+		if htier == "thorough" && h.BoundsT != "" {
 			b = h.BoundsT
 		}
 		bounds[h.ID] = b
@@ -271,7 +278,7 @@ func cmdCheck(args []string) int {
 			var lastOut string
 			try := func(f interp.Finding, n int) bool {
 				rf := replayFile{Property: *prop, Harness: h.ID, Func: h.Func, Site: f.Site, Kind: f.Kind, Msg: f.Msg,
-					Inputs: f.Inputs, Choices: f.Choices, Tier: *tier, Params: opts.Params, Decision: f.Decisions, Explore: opts.Explore}
+					Inputs: f.Inputs, Choices: f.Choices, Tier: htier, Params: opts.Params, Decision: f.Decisions, Explore: opts.Explore}
 				path := filepath.Join(verifDir, "replays", *prop, sanitize(h.ID+"-"+f.Site)+fmt.Sprintf("-%d.json", n))
 				os.MkdirAll(filepath.Dir(path), 0o755)
 				bb, _ := json.MarshalIndent(rf, "", " ")
@@ -367,7 +374,7 @@ func cmdCheck(args []string) int {
 			if rp != nil {
 				for n, wt := range sum.Witnesses {
 					rf := replayFile{Property: *prop, Harness: h.ID, Func: h.Func, Site: "witness", Kind: "witness",
-						Inputs: wt.Inputs, Choices: wt.Choices, Tier: *tier, Params: opts.Params, Decision: wt.Decisions}
+						Inputs: wt.Inputs, Choices: wt.Choices, Tier: htier, Params: opts.Params, Decision: wt.Decisions}
 					path := filepath.Join(verifDir, ".cache", "witness", fmt.Sprintf("%s-%s-%d.json", *prop, h.ID, n))
 					os.MkdirAll(filepath.Dir(path), 0o755)
 					bb, _ := json.Marshal(rf)
